@@ -91,7 +91,7 @@ MCNext ==
   \/ /\ s.intx
      /\ (KeepHist => Len(hist) % TxEvery = 0)
      /\ \/ Do("Finalise", Finalise(s), [op |-> "Finalise"])
-        \/ Do("IntermediateRoot", Finalise(s), [op |-> "IntermediateRoot"])
+        \/ Do("IntermediateRoot", IntermediateRoot(s), [op |-> "IntermediateRoot"])
 
 MCSpec == MCInit /\ [][MCNext]_<<s, act, hist>>
 
